@@ -511,6 +511,35 @@ def register(E):
             ln = f(r)[1]
             pair = Tup([sub(s, bv(0), r), sub(s, r + ln, s.ln - r - ln)])
             return [(cf, some(pair)), (cn, NONE)]
+        if op in ('trim_start_matches', 'trim_end_matches'):
+            if kind == 'str':
+                pc = p.conc()
+                if pc is None or len(pc) == 0:
+                    raise Inconclusive('trim_*_matches with a symbolic/empty pattern')
+                L = len(pc)
+                reps = n // L
+                # number of leading (trailing) repetitions: c_k = hit_k ? 1 + c_{k+1} : 0
+                chain = bv(0)
+                for k in range(reps - 1, -1, -1):
+                    if op == 'trim_start_matches':
+                        hit = match_at(E, s, bv(k * L), p)
+                    else:
+                        hit = z3.And(z3.UGE(s.ln, (k + 1) * L), match_at(E, s, s.ln - (k + 1) * L, p))
+                    chain = z3.If(hit, chain + 1, bv(0))
+                cut = chain * L
+                if op == 'trim_start_matches':
+                    return [(T, sub(s, cut, s.ln - cut))]
+                return [(T, sub(s, bv(0), s.ln - cut))]
+            sbp = single_byte_pred(E, st, kind, p)
+            if sbp is None:
+                raise Inconclusive(op + ' with a non-ASCII pattern')
+            if op == 'trim_start_matches':
+                (cf, sv), (cn, _) = find_pred(E, s, lambda i: z3.Not(sbp(s.at(i))), byte_pred=lambda b: z3.Not(sbp(b)))
+                r = sv.fields[0].v
+                return [(cf, sub(s, r, s.ln - r)), (cn, sub(s, s.ln, bv(0)))]
+            (cf, sv), (cn, _) = rfind_pred(E, s, lambda i: z3.Not(sbp(s.at(i))))
+            r = sv.fields[0].v
+            return [(cf, sub(s, bv(0), r + 1)), (cn, sub(s, bv(0), bv(0)))]
         raise Inconclusive('str op ' + op)
 
     def find_pred_incl_end(E, s, pred_at):
